@@ -1524,6 +1524,11 @@ def remove_stns_sinex(sinex, sites):
         solution_epochs = read_sinex_solution_epochs_block(sinex)
         num_stns_to_remove = 0
         for line in solution_epochs:
+            # data lines only: the block header, the comment line and the
+            # block trailer are not sites ('*CODE PT SOLN ...'[1:5] is 'CODE')
+            if line.startswith('*') or line.startswith('+') or \
+                    line.startswith('-'):
+                continue
             site = line[1:5]
             if site in sites:
                 num_stns_to_remove += 1
